@@ -22,11 +22,18 @@ def run(name):
             r=subprocess.run([V+'/tools/baseline.sh',tmp],capture_output=True,text=True)
             t=(r.stdout.strip().splitlines() or ['?'])[0]
         bad=[]
-        for p in props:
-            r=subprocess.run([BIN,'-property',p,'-tier','quick'],env=dict(env,VERIF_REPO=tmp),capture_output=True,text=True)
-            if r.returncode!=0:
-                lines=[l for l in r.stdout.splitlines() if l.startswith('CONTROL-VIOLATION') or l.startswith('CHECKER-ERROR')]
-                bad.append(f'{p}(exit={r.returncode}: '+' ;; '.join(l[:260] for l in lines[:3])+')')
+        # one process, every property on the once-loaded program (-all): sections end with "ALL-RESULT <id> rc=<n>"
+        r=subprocess.run([BIN,'-all'],env=dict(env,VERIF_REPO=tmp),capture_output=True,text=True)
+        cur=[]; seen=0
+        for l in r.stdout.splitlines():
+            if l.startswith('ALL-RESULT '):
+                _,pid,rcs=l.split(); code=int(rcs.split('=')[1]); seen+=1
+                if code!=0:
+                    lines=[x for x in cur if x.startswith('CONTROL-VIOLATION') or x.startswith('CHECKER-ERROR')]
+                    bad.append(f'{pid}(exit={code}: '+' ;; '.join(x[:260] for x in lines[:3])+')')
+                cur=[]
+            else: cur.append(l)
+        if seen!=len(props): bad.append('not every property reported: '+(r.stdout.strip().splitlines() or ['?'])[-1][:200])
         return name,bad,'',t
     finally:
         shutil.rmtree(tmp,ignore_errors=True)
